@@ -228,6 +228,10 @@ class Runner():
             except StopIteration:
                 break
 
+            # all remaining tasks are waiting but no task is being executed
+            if node == "hold on":
+                raise task_dispatcher.cyclic_hold_error()
+
             if not self.select_task(node, task_dispatcher.tasks):
                 continue
 
@@ -474,6 +478,9 @@ class MRunner(Runner):
         # wait for all processes terminate
         proc_count = len(proc_list)
         try:
+            # all processes on hold, no task is being executed
+            if proc_count and self.free_proc >= proc_count:
+                raise task_dispatcher.cyclic_hold_error()
             while proc_count:
                 # wait until there is a result to be consumed
                 result = result_q.get()
@@ -498,8 +505,10 @@ class MRunner(Runner):
                     if next_job is None:
                         proc_count -= 1
                     job_q.put(next_job)
-                # check for cyclic dependencies
-                assert len(proc_list) > self.free_proc
+                # check for cyclic dependencies: all (remaining) processes
+                # on hold, no task is being executed
+                if proc_count and self.free_proc >= proc_count:
+                    raise task_dispatcher.cyclic_hold_error()
         except (SystemExit, KeyboardInterrupt, Exception):
             if self.Child == Process:
                 for proc in proc_list:
